@@ -25,6 +25,7 @@ fn search(
     finals: &[(Request, Option<Response>)],
     tried: &mut u64,
     best: &mut (usize, Vec<Violation>),
+    wild: Option<Kind>,
 ) -> bool {
     if order.len() == ops.len() {
         *tried += 1;
@@ -58,6 +59,38 @@ fn search(
         if ops[i].inv > min_ret {
             continue;
         }
+        if wild == Some(op_info(ops[i].req.opcode).kind) && wild == Some(Kind::Delete) {
+            // attribution only: this delete may have removed the key or not,
+            // whatever it answered
+            let key = ops[i].req.key.clone();
+            let mut removed = model.clone();
+            let st = if removed.items.contains_key(&key) { status::OK } else { status::NOT_FOUND };
+            let req = Request::delete(crate::wire::op::DELETE, &key, 0);
+            let resp = Response {
+                magic: 0x81,
+                opcode: crate::wire::op::DELETE,
+                key_len: 0,
+                extras_len: 0,
+                data_type: 0,
+                status: st,
+                body_len: 0,
+                opaque: 0,
+                cas: 0,
+                body: Vec::new(),
+            };
+            removed.apply(&req, Some(&resp));
+            let _ = removed.take_violations();
+            for m in [removed, model.clone()] {
+                done[i] = true;
+                order.push(i);
+                if search(ops, done, order, &m, finals, tried, best, wild) {
+                    return true;
+                }
+                order.pop();
+                done[i] = false;
+            }
+            continue;
+        }
         let mut m = model.clone();
         if ops[i].req.opcode == crate::ringt::TICK {
             m.advance(ops[i].req.cas);
@@ -73,7 +106,7 @@ fn search(
         }
         done[i] = true;
         order.push(i);
-        if search(ops, done, order, &m, finals, tried, best) {
+        if search(ops, done, order, &m, finals, tried, best, wild) {
             return true;
         }
         order.pop();
@@ -84,12 +117,19 @@ fn search(
 
 /// Atomic specification: every command takes effect at one instant.
 pub fn check_atomic(h: &THistory) -> LinResult {
+    check_atomic_wild(h, None)
+}
+
+/// As `check_atomic`, but commands of kind `wild` (Delete only) are free: any
+/// answer, removed or not. A history that fails the atomic specification and
+/// passes this one is explained by those commands alone.
+pub fn check_atomic_wild(h: &THistory, wild: Option<Kind>) -> LinResult {
     let ops: Vec<TOp> = h.ops.iter().filter(|o| o.completed && o.panic.is_none()).cloned().collect();
     let mut done = vec![false; ops.len()];
     let mut order = Vec::new();
     let mut tried = 0u64;
     let mut best = (0usize, Vec::new());
-    let ok = search(&ops, &mut done, &mut order, &h.init_model, &h.final_reads, &mut tried, &mut best);
+    let ok = search(&ops, &mut done, &mut order, &h.init_model, &h.final_reads, &mut tried, &mut best, wild);
     LinResult {
         ok,
         orders_tried: tried,
